@@ -170,5 +170,124 @@ theorem report_record (fails : Nat → Nat → Bool) (p j : Nat) (jb : Job) :
 example : merge 0 (fun _ => ⟨complete, some 1, some 1, none⟩) (fun _ => ⟨failed, some 100, none, some 100⟩) 3 = ⟨complete, some 1, some 1, none⟩ := by
   decide
 
+section lockHolder
+open PC
+/-! ## the shared files are written only by the holder of the lock (model `C10R`, every reachable state) -/
+
+/-- the program points between taking the lock and releasing it -/
+def holding (pc : PC) : Bool :=
+  match pc with
+  | .locked | .merged | .backedUp | .assignedSt | .written => true
+  | _ => false
+
+/-- states reachable from a job file with any history by any interleaving of the processes' steps -/
+inductive Reach (cfg : Nat → Cfg) (fails : Nat → Nat → Bool) (J : Nat) (hist : Nat → Job) : S → Prop
+  | init : Reach cfg fails J hist (init hist)
+  | step (s s' : S) (p : Nat) : Reach cfg fails J hist s → step cfg fails J s p = some s' → Reach cfg fails J hist s'
+
+def LockInv (s : S) : Prop := (∀ q, holding (s.proc q).pc = true → s.lock = [q])
+
+theorem upd_same {β : Type} (f : Nat → β) (i : Nat) (v : β) : upd f i v i = v := by simp [upd]
+theorem upd_other {β : Type} (f : Nat → β) (i j : Nat) (v : β) (h : j ≠ i) : upd f i v j = f j := by simp [upd, h]
+
+theorem lockInv_step (cfg : Nat → Cfg) (fails : Nat → Nat → Bool) (J : Nat) (s s' : S) (p : Nat)
+    (hi : LockInv s) (hs : step cfg fails J s p = some s') : LockInv s' := by
+  unfold step at hs
+  intro q hq
+  by_cases hqp : q = p
+  · subst hqp
+    revert hs
+    cases hpc : (s.proc q).pc <;> simp only [hpc] <;> intro hs
+    · -- idle
+      split at hs
+      · cases hs; simp [setP, upd_same, holding] at hq
+      · split at hs <;> (cases hs; simp [setP, upd_same, holding] at hq)
+    · -- wantLock
+      split at hs
+      · cases hs; rfl
+      · cases hs
+    · cases hs; simp only [setP] at hq ⊢; exact hi q (by simp [hpc, holding])
+    · cases hs; simp only [setP] at hq ⊢; exact hi q (by simp [hpc, holding])
+    · cases hs; simp only [setP] at hq ⊢; exact hi q (by simp [hpc, holding])
+    · cases hs; simp only [setP] at hq ⊢; exact hi q (by simp [hpc, holding])
+    · cases hs; simp [setP, upd_same, holding] at hq
+    · split at hs <;> (cases hs; simp [setP, upd_same, holding] at hq)
+    · cases hs; simp [setP, upd_same, holding] at hq
+    · cases hs
+  · -- another process moved: q's program point is unchanged, and if q holds the lock p cannot have taken or released it
+    have hsame : ∀ x : Proc, ((setP s p x).proc q) = s.proc q := fun x => by simp [setP, upd_other _ _ _ _ hqp]
+    revert hs
+    cases hpc : (s.proc p).pc <;> simp only [hpc] <;> intro hs
+    · split at hs
+      · cases hs; rw [hsame] at hq; simpa [setP] using hi q hq
+      · split at hs <;> (cases hs; rw [hsame] at hq; simpa [setP] using hi q hq)
+    · split at hs
+      · rename_i hl
+        cases hs
+        simp only [] at hq
+        rw [hsame] at hq
+        have := hi q hq
+        rw [hl] at this; cases this
+      · cases hs
+    · cases hs; rw [hsame] at hq; simpa [setP] using hi q hq
+    · cases hs; simp only [] at hq; rw [hsame] at hq; simpa [setP] using hi q hq
+    · cases hs; rw [hsame] at hq; simpa [setP] using hi q hq
+    · cases hs; simp only [] at hq; rw [hsame] at hq; simpa [setP] using hi q hq
+    · -- p releases: p was holding, so the lock is [p]; q holding would make it [q]
+      cases hs
+      simp only [] at hq
+      rw [hsame] at hq
+      have h1 := hi q hq
+      have h2 := hi p (by simp [hpc, holding])
+      rw [h1] at h2
+      simp at h2
+      exact absurd h2 hqp
+    · split at hs <;> (cases hs; rw [hsame] at hq; simpa [setP] using hi q hq)
+    · cases hs; simp only [] at hq; rw [hsame] at hq; simpa [setP] using hi q hq
+    · cases hs
+
+theorem reach_lockInv (cfg : Nat → Cfg) (fails : Nat → Nat → Bool) (J : Nat) (hist : Nat → Job) (s : S)
+    (h : Reach cfg fails J hist s) : LockInv s := by
+  induction h with
+  | init => intro q hq; simp [init, holding] at hq
+  | step s s' p _ hs ih => exact lockInv_step cfg fails J s s' p ih hs
+
+/-- **only the holder of the lock writes the job file or its back-up**: in every reachable state, a step of process `p` that
+    changes the job file or the back-up is taken while the lock list is exactly `[p]` — so two processes never write at the same
+    time, and no process writes without the lock (the trace clause `writesUnderLock` of the check is this statement on the events
+    of the real processes) -/
+theorem write_needs_lock (cfg : Nat → Cfg) (fails : Nat → Nat → Bool) (J : Nat) (hist : Nat → Job) (s s' : S) (p : Nat)
+    (hr : Reach cfg fails J hist s) (hs : step cfg fails J s p = some s') (hw : s'.disk ≠ s.disk ∨ s'.bak ≠ s.bak) :
+    s.lock = [p] := by
+  have hi := reach_lockInv cfg fails J hist s hr
+  unfold step at hs
+  revert hs
+  cases hpc : (s.proc p).pc <;> simp only [hpc] <;> intro hs
+  · split at hs
+    · cases hs; simp [setP] at hw
+    · split at hs <;> (cases hs; simp [setP] at hw)
+  · split at hs
+    · cases hs; simp [setP] at hw
+    · cases hs
+  · cases hs; simp [setP] at hw
+  · exact hi p (by simp [hpc, holding])
+  · cases hs; simp [setP] at hw
+  · exact hi p (by simp [hpc, holding])
+  · cases hs; simp [setP] at hw
+  · split at hs <;> (cases hs; simp [setP] at hw)
+  · cases hs; simp [setP] at hw
+  · cases hs
+
+/-! non-vacuity: one process, one available job, cache 1: after five steps the process holds the lock and its next step writes the job file -/
+def demoCfg : Nat → Cfg := fun _ => { cache := 1, maxjobs := 1000, hosts := [], stats := [] }
+def demoHist : Nat → Job := fun _ => { status := .avail, host := none, out := none, err := none }
+def demoRun : Nat → Option S
+  | 0 => some (init demoHist)
+  | n + 1 => (demoRun n).bind fun s => step demoCfg (fun _ _ => false) 1 s 0
+example : (match demoRun 5, demoRun 6 with
+    | some s, some s' => holding (s.proc 0).pc && s.lock == [0] && ((s'.disk 0).status == Status.assigned) && ((s.disk 0).status == Status.avail)
+    | _, _ => false) = true := by decide +kernel
+end lockHolder
+
 end Votca.C10R
 
